@@ -29,7 +29,7 @@ func init() {
 	fw.Register(&fw.Prop{
 		ID:       "C05",
 		Rule:     "two-way kinds only (fields and actions the library has a decoder case for). ctrl/switch: whole messages built through the API, encoded, decoded through the parser entry point (kinds the parser does not dispatch are decoded into a constructor-made value), re-encoded; element modes: every action kind, instruction kind, bucket, match, match field (every constructor, with/without mask) and multipart request body encoded alone and also followed by trailing bytes of other elements, decoded by the dispatcher the library uses for that kind. Oracle: same dynamic kind and exported field values (extractor trees equal), byte-equal re-encoding, decoded value's Len() == bytes occupied. distinct = hash(mode, recipe without xid); non-trivial = every case with at least one non-default field (all generated cases)",
-		NumCases: func(tier string, seed uint64) int { return nCases(tier, 60000, 16000000) },
+		NumCases: func(tier string, seed uint64) int { return nCases(tier, 300000, 16000000) },
 		Gen:      c05Gen,
 		NewCase:  func() any { return new(c05Case) },
 		Eval:     c05Eval,
